@@ -2,33 +2,53 @@
 
 Engine E2 (exhaustive product), level "exploration", exhaustive over the finite space written out below:
 
-  DOCS(tier) x PATHS(tier) x SYNTAXES x OPS        evaluated on a table column (VARIANT; OBJECT/ARRAY typed columns
-                                                   with the value ops), one SQL expression per (path, syntax, op),
-                                                   evaluated by the engine on every document row at once
-  LDOCS(tier) x relevant paths x OPS               the same through a PARSE_JSON('...') literal (one SELECT list per
-                                                   document)
-  CDOCS(tier) x constructor styles x paths         OBJECT_CONSTRUCT[_KEEP_NULL], array literals, ARRAY_CONSTRUCT
-  DOCS x PATHS x FLATTEN columns                   LATERAL FLATTEN(input => <extraction>) [alias] over the table
-  explicit lists                                   PARSE_JSON/TRY_PARSE_JSON texts, NULL keys, SPLIT strings
+  col   DOCS(tier) x PATHS(tier) x SYNTAXES x OPS   on a table column (VARIANT; the OBJECT/ARRAY typed columns take the
+                                                    value ops): one SQL expression per (path, syntax, op), evaluated by
+                                                    the engine on every document row of the table at once
+  flat  DOCS x PATHS x FLATTEN columns              LATERAL FLATTEN(input => <extraction>) [alias] over the table
+  lit   LDOCS(tier) x relevant paths x OPS          the same extractions on a PARSE_JSON('<text>') literal (one SELECT
+                                                    list per document)
+  ctor  CDOCS(tier) x 2 constructor styles x paths  OBJECT_CONSTRUCT + [..] literal / OBJECT_CONSTRUCT_KEEP_NULL +
+                                                    ARRAY_CONSTRUCT
+  misc  explicit lists                              PARSE_JSON / TRY_PARSE_JSON texts (valid, invalid, NULL), NULL keys,
+                                                    SPLIT strings x separators (value, element, size, FLATTEN), FLATTEN
+                                                    of literals
 
 The reference is mc/ref/json_nav.py: Python navigation of the json.loads-ed document plus Snowflake's documented
 conversions; expectations never come from fakesnow.
 
 Batching: the expressions of one (path, syntax, target kind) -- resp. of one document for the literal sources -- go
 into one SELECT list; whenever such a statement raises it is split in halves recursively down to one expression per
-statement, so a raising expression is always isolated on its own and cannot mask the others. A single expression
-that raises on a row set is re-run per distinct target value unless it also raises on the empty row set (then the
-error does not depend on the data).
+statement, so a raising expression always ends up alone in its own statement and cannot mask the others. A single
+expression that raises on a row set is re-run per distinct target value unless it also raises on the empty row set
+(then the error does not depend on the data).
 
-Not demanded (deliberately left open, Snowflake raises or is not documented unambiguously):
-  * casts of strings / containers to NUMBER, INT, FLOAT, BOOLEAN and of booleans to numbers (Snowflake raises for the
-    strings of the alphabet; none is numeric);
+Dependencies: an operation over an extraction is only judged on rows where the bare extraction (and, for the cast
+contexts, the cast it contains) is itself right; otherwise the cell is counted as shadowed and the failure is
+reported once, where it originates.
+
+Clauses
+  C11.extract         (1) extraction = navigated value, as a JSON document (strings keep their JSON quotes)
+  C11.text            (2) ::VARCHAR/::STRING/UPPER/LOWER/TRIM give the raw text (quotes lost exactly there)
+  C11.missing         (3) any operation over a missing path / wrong-kind step is NULL (IS NULL: TRUE)
+  C11.cast                number casts of numbers, BOOLEAN of booleans
+  C11.construct           PARSE_JSON / TRY_PARSE_JSON / array literal / ARRAY_CONSTRUCT / OBJECT_CONSTRUCT documents
+  C11.object_construct(4) OBJECT_CONSTRUCT drops NULL-valued (and NULL-keyed) pairs, _KEEP_NULL keeps NULL values
+  C11.array_size      (5) len for arrays (0 for empty), NULL for anything else
+  C11.flatten         (6) every element once, in order; no row for empty / missing / JSON null
+  C11.context         (7) operator context over a cast extraction = context applied to the navigated value (3VL)
+  C11.context_uncast  (7) the same over the bare extraction where the operator matches the value's kind
+  C11.split               SPLIT gives the list of parts (a JSON array of strings)
+
+Not demanded (deliberately left open: Snowflake raises or is not documented unambiguously):
+  * casts of strings / containers to NUMBER, INT, FLOAT, BOOLEAN, of booleans to numbers, of numbers to BOOLEAN;
   * UPPER/LOWER of a non-empty container (changes the letters inside the JSON text), `|| 'x'` on a container;
-  * any operator context over an *uncast* extraction whose kind does not match the operator (string + 1, ...), and
-    IS NULL / comparisons over an uncast JSON null (JSON null and SQL NULL are both None here);
-  * uncast LIKE; FLATTEN of objects and scalars, FLATTEN's INDEX/KEY/PATH/SEQ/THIS columns; TABLE(FLATTEN(...));
+  * operator contexts over an *uncast* extraction whose kind does not match the operator (string + 1, ...), and
+    IS NULL / comparisons over an uncast JSON null (JSON null and SQL NULL are both None here); uncast LIKE;
+  * FLATTEN of objects and scalars, FLATTEN's INDEX/KEY/PATH/SEQ/THIS columns, TABLE(FLATTEN(...)), positional input;
   * whitespace / key order of JSON text; the Python type of numbers (int/float/Decimal) and of constructor results;
-  * dot after a bracket outside a colon path (v[0].a), GET_PATH with a leading index, GET(), negative indices.
+  * dot after a bracket outside a colon path (v[0].a), GET_PATH with a leading index, GET(), negative indices,
+    object constants {'a': 1}, PARSE_JSON of '' / single-quoted JSON / trailing commas (Snowflake is lenient there).
 """
 from __future__ import annotations
 
@@ -47,19 +67,26 @@ LEVEL = "exploration"
 # ======================================================================================================================
 ATOMS = [None, True, 0, -1.5, "s", "Str", 'q"', "", [], {}]
 ATOMS_QUICK = [None, True, 0, -1.5, "Str", 'q"', [], {}]
-KEY1, KEY2 = "a", "B"  # first key lower case, second upper case: case variants are "A" and "b"
-FILL = "s"  # sibling next to the spine child in documents of depth >= 2 (thorough); quick uses the same
-SMALL_ATOMS = [0, "Str"]  # complete closure to depth 2 over these (thorough)
+KEY1, KEY2 = "a", "B"  # first key lower case, second upper case: the case variants are "A" and "b"
+FILL = "s"  # sibling next to the spine child in documents of depth >= 2
+SMALL_ATOMS = [0, "Str"]  # thorough: complete closure to depth 2 over these
 
 STEPS = {"quick": ["a", "B", "A", "zz", 0, 1, 2], "thorough": ["a", "B", "A", "b", "zz", 0, 1, 2]}
 MAXLEN = {"quick": 2, "thorough": 3}
-# quick additionally takes these paths of length 3 (one per combination of step kinds)
+# quick additionally takes these paths of length 3 (every combination of step kinds, plus negatives)
 QUICK_LONG = [
     ("a", "a", "a"), ("a", "B", 0), ("a", 0, "B"), ("a", 1, 0), (0, "a", "B"), (0, "a", 1), (1, 0, "a"), (0, 1, 0),
     ("a", "a", "zz"), ("a", 0, 2), (0, "a", "A"),
 ]  # fmt: skip
 
 FRAMES = ["A1", "A2L", "A2R", "O1", "O2L", "O2R"]
+FRAMES_QUICK = ["A1", "A2R", "O1", "O2R"]
+CHAIN_ATOMS = {
+    "quick": {2: [None, "Str", -1.5, []], 3: ["Str", 0]},
+    "thorough": {2: ATOMS, 3: ATOMS},
+}
+LIT_ATOMS = {"quick": [None, "Str", -1.5, []], "thorough": ATOMS}  # literal source: depth <= 1 over these ...
+LIT_CHAIN_ATOMS = {"quick": [], "thorough": [None, "Str", 0, []]}  # ... plus 2-frame chains ending in these
 
 
 def frame(f, child, sib):
@@ -107,29 +134,42 @@ def _dedupe(docs):
     return out
 
 
+def _chains(frames, depth, atoms):
+    out = []
+    for fs in itertools.product(frames, repeat=depth):
+        for a in atoms:
+            d = a
+            for f in reversed(fs):
+                d = frame(f, d, FILL)
+            out.append(d)
+    return out
+
+
 def docs_for(tier):
-    """The document set: (i) every document of depth <= 1 and width <= 2 over the atoms; (ii) every chain of 2..3
-    container frames (array/object, width 1 or 2, spine child first or second, sibling = FILL) ending in an atom;
-    (iii) thorough: every document of depth <= 2, width <= 2 over SMALL_ATOMS."""
+    """The document set of the table: (i) every document of depth <= 1 and width <= 2 over the atoms; (ii) every chain
+    of 2..3 container frames (array/object, width 1 or 2, spine child first or second, sibling = FILL) ending in an
+    atom; (iii) thorough: every document of depth <= 2, width <= 2 over SMALL_ATOMS."""
     atoms = ATOMS if tier == "thorough" else ATOMS_QUICK
+    frames = FRAMES if tier == "thorough" else FRAMES_QUICK
     out = list(atoms) + _containers(atoms)
-    if tier == "thorough":
-        chain_atoms = {2: ATOMS, 3: ATOMS}
-        frames = FRAMES
-    else:
-        chain_atoms = {2: [None, "Str", -1.5, []], 3: ["Str", 0]}
-        frames = ["A1", "A2R", "O1", "O2R"]
     for depth in (2, 3):
-        for fs in itertools.product(frames, repeat=depth):
-            for a in chain_atoms[depth]:
-                d = a
-                for f in reversed(fs):
-                    d = frame(f, d, FILL)
-                out.append(d)
+        out += _chains(frames, depth, CHAIN_ATOMS[tier][depth])
     if tier == "thorough":
-        v1 = list(SMALL_ATOMS) + _containers(SMALL_ATOMS)
-        out += _containers(v1)
+        out += _containers(list(SMALL_ATOMS) + _containers(SMALL_ATOMS))
     return _dedupe(out)
+
+
+def lit_docs_for(tier):
+    atoms = LIT_ATOMS[tier]
+    frames = FRAMES if tier == "thorough" else FRAMES_QUICK
+    return _dedupe(list(atoms) + _containers(atoms) + _chains(frames, 2, LIT_CHAIN_ATOMS[tier]))
+
+
+def ctor_docs_for(tier):
+    """constructor documents: the containers of depth <= 1 over the atoms and the 2-frame chains"""
+    atoms = ATOMS if tier == "thorough" else ATOMS_QUICK
+    frames = FRAMES if tier == "thorough" else FRAMES_QUICK
+    return _dedupe([[], {}] + _containers(atoms) + _chains(frames, 2, CHAIN_ATOMS[tier][2]))
 
 
 def paths_for(tier):
@@ -140,6 +180,40 @@ def paths_for(tier):
     if tier == "quick":
         out += QUICK_LONG
     return out
+
+
+def relevant_paths(doc, maxlen=3):
+    """every path that exists in `doc`, plus, from every existing node: a missing key, the case variant of each
+    present key, the first index out of range, and a wrong-kind step (key on a non-object, index on a non-array)"""
+    out = [()]
+
+    def walk(node, pre):
+        if len(pre) >= maxlen:
+            return
+        neg = []
+        if isinstance(node, dict):
+            for k in node:
+                out.append(pre + (k,))
+                walk(node[k], pre + (k,))
+                neg.append(k.swapcase())
+            neg += ["zz", 0]
+        elif isinstance(node, list):
+            for i, x in enumerate(node):
+                out.append(pre + (i,))
+                walk(x, pre + (i,))
+            neg += [len(node), KEY1]
+        else:
+            neg += [KEY1, 0]
+        for s in neg:
+            out.append(pre + (s,))
+
+    walk(doc, ())
+    seen, res = set(), []
+    for p in out:
+        if p not in seen:
+            seen.add(p)
+            res.append(p)
+    return res
 
 
 # ---- path syntaxes -------------------------------------------------------------------------------------------------------
@@ -198,8 +272,39 @@ def shape_of(steps) -> str:
     return "".join("k" if isinstance(s, str) else "i" for s in steps) or "root"
 
 
+def formclass(form: str) -> str:
+    """coarse written shape used in class keys: p | G | root | b1 (one bracket on the source) | b1:p (one bracket, then a
+    colon path) | bb.K / bb.I (two or more brackets on the source; .K if a bracket before the last one is a ['key'],
+    .I if those are all [index])"""
+    if form in ("p", "G", "root"):
+        return form
+    lead, _, rest = form.partition(":")
+    if len(lead) == 1:
+        return "b1:p" if rest else "b1"
+    return "bb.K" if "K" in lead[:-1] else "bb.I"
+
+
+def shifted_steps(steps, form):
+    """bb.I forms: the path with every [index] before the last leading bracket moved up by one (the explanation probed
+    for index chains: v[0][1] answers what v[1][1] should)"""
+    nlead = len(form.partition(":")[0])
+    return tuple(s + 1 if (n < nlead - 1 and isinstance(s, int)) else s for n, s in enumerate(steps))
+
+
+def shift_feature(doc, steps, form):
+    """'same' if the shifted path leads to the same value as the written one (then a shifted evaluation is right by
+    coincidence), else 'differs'; only defined for bb.I forms"""
+    if formclass(form) != "bb.I":
+        return None
+    a, b = J.navigate(doc, steps), J.navigate(doc, shifted_steps(steps, form))
+    a = None if a is J.MISSING else a
+    b = None if b is J.MISSING else b
+    return "same" if J.json_equal(a, b) else "differs"
+
+
 # ======================================================================================================================
-# operations: (id, SQL template over the extraction {x}, comparison mode, reference, clause)
+# operations: id -> SQL template over the extraction {x}, comparison mode, reference, clause, deps (value ops whose
+# verdict must be "right" on a row before this op is judged there)
 # ======================================================================================================================
 def _T(v):
     """text cast for use inside comparison contexts: containers take a stand-in serialisation (every literal compared
@@ -208,14 +313,10 @@ def _T(v):
     return json.dumps(t.doc) if isinstance(t, J.JsonText) else t
 
 
-def _und(*vals):
-    return any(v is J.UNDEMANDED for v in vals)
-
-
 def _ctx(fn, *convs):
     def f(v):
         xs = [c(v) for c in convs]
-        if _und(*xs):
+        if any(x is J.UNDEMANDED for x in xs):
             return J.UNDEMANDED
         return fn(*xs)
 
@@ -242,28 +343,28 @@ VALUE_OPS = [
 ]
 
 CAST_CTX = [
-    ("c_eq", "{x}::varchar = 'Str'", "bool", _ctx(lambda t: J.cmp3(t, "=", "Str"), _T)),
-    ("c_ne", "{x}::varchar <> 'Str'", "bool", _ctx(lambda t: J.cmp3(t, "<>", "Str"), _T)),
-    ("c_gt", "{x}::float > -2", "bool", _ctx(lambda f: J.cmp3(f, ">", -2), J.to_float)),
-    ("c_isnull", "{x}::varchar is null", "bool", _ctx(J.isnull, _T)),
+    ("c_eq", "{x}::varchar = 'Str'", "bool", _ctx(lambda t: J.cmp3(t, "=", "Str"), _T), ("varchar",)),
+    ("c_ne", "{x}::varchar <> 'Str'", "bool", _ctx(lambda t: J.cmp3(t, "<>", "Str"), _T), ("varchar",)),
+    ("c_gt", "{x}::float > -2", "bool", _ctx(lambda f: J.cmp3(f, ">", -2), J.to_float), ("float",)),
+    ("c_isnull", "{x}::varchar is null", "bool", _ctx(J.isnull, _T), ("varchar",)),
     ("c_and", "{x}::varchar <> 's' and {x}::varchar <> 'Str'", "bool",
-     _ctx(lambda t: J.and3(J.cmp3(t, "<>", "s"), J.cmp3(t, "<>", "Str")), _T)),
+     _ctx(lambda t: J.and3(J.cmp3(t, "<>", "s"), J.cmp3(t, "<>", "Str")), _T), ("varchar",)),
     ("c_or", "{x}::varchar = 'Str' or {x}::varchar is null", "bool",
-     _ctx(lambda t: J.or3(J.cmp3(t, "=", "Str"), J.isnull(t)), _T)),
-    ("c_not", "not {x}::varchar = 'Str'", "bool", _ctx(lambda t: J.not3(J.cmp3(t, "=", "Str")), _T)),
-    ("c_notb", "not {x}::boolean", "bool", _ctx(J.not3, J.to_boolean)),
-    ("c_plus", "{x}::int + 1", "num", _ctx(lambda n: J.add3(n, 1), J.to_number)),
-    ("c_mul", "{x}::float * 2 + 1", "num", _ctx(lambda f: J.add3(J.mul3(f, 2), 1), J.to_float)),
-    ("c_concat", "{x}::varchar || 'x'", "text", _concat_cast),
-    ("c_in", "{x}::varchar in ('Str', 's')", "bool", _ctx(lambda t: J.in3(t, ["Str", "s"]), _T)),
-    ("c_like", "{x}::varchar like 'S%'", "bool", _ctx(lambda t: J.like3(t, "S%"), _T)),
-    ("c_rhs_eq", "'Str' = {x}::varchar", "bool", _ctx(lambda t: J.cmp3("Str", "=", t), _T)),
-    ("c_rhs_plus", "1 + {x}::int * 2", "num", _ctx(lambda n: J.add3(1, J.mul3(n, 2)), J.to_number)),
-    ("c_arith_cmp", "{x}::int + 1 = 1", "bool", _ctx(lambda n: J.cmp3(J.add3(n, 1), "=", 1), J.to_number)),
-    ("c_band", "{x}::boolean and true", "bool", _ctx(lambda b: J.and3(b, True), J.to_boolean)),
-    ("c_bor", "{x}::boolean or false", "bool", _ctx(lambda b: J.or3(b, False), J.to_boolean)),
+     _ctx(lambda t: J.or3(J.cmp3(t, "=", "Str"), J.isnull(t)), _T), ("varchar",)),
+    ("c_not", "not {x}::varchar = 'Str'", "bool", _ctx(lambda t: J.not3(J.cmp3(t, "=", "Str")), _T), ("varchar",)),
+    ("c_notb", "not {x}::boolean", "bool", _ctx(J.not3, J.to_boolean), ("boolean",)),
+    ("c_plus", "{x}::int + 1", "num", _ctx(lambda n: J.add3(n, 1), J.to_number), ("int",)),
+    ("c_mul", "{x}::float * 2 + 1", "num", _ctx(lambda f: J.add3(J.mul3(f, 2), 1), J.to_float), ("float",)),
+    ("c_concat", "{x}::varchar || 'x'", "text", _concat_cast, ("varchar",)),
+    ("c_in", "{x}::varchar in ('Str', 's')", "bool", _ctx(lambda t: J.in3(t, ["Str", "s"]), _T), ("varchar",)),
+    ("c_like", "{x}::varchar like 'S%'", "bool", _ctx(lambda t: J.like3(t, "S%"), _T), ("varchar",)),
+    ("c_rhs_eq", "'Str' = {x}::varchar", "bool", _ctx(lambda t: J.cmp3("Str", "=", t), _T), ("varchar",)),
+    ("c_rhs_plus", "1 + {x}::int * 2", "num", _ctx(lambda n: J.add3(1, J.mul3(n, 2)), J.to_number), ("int",)),
+    ("c_arith_cmp", "{x}::int + 1 = 1", "bool", _ctx(lambda n: J.cmp3(J.add3(n, 1), "=", 1), J.to_number), ("int",)),
+    ("c_band", "{x}::boolean and true", "bool", _ctx(lambda b: J.and3(b, True), J.to_boolean), ("boolean",)),
+    ("c_bor", "{x}::boolean or false", "bool", _ctx(lambda b: J.or3(b, False), J.to_boolean), ("boolean",)),
     ("c_mix", "{x}::float > -2 and {x}::varchar <> 'Str'", "bool",
-     _ctx(lambda f, t: J.and3(J.cmp3(f, ">", -2), J.cmp3(t, "<>", "Str")), J.to_float, _T)),
+     _ctx(lambda f, t: J.and3(J.cmp3(f, ">", -2), J.cmp3(t, "<>", "Str")), J.to_float, _T), ("float", "varchar")),
 ]  # fmt: skip
 
 
@@ -306,21 +407,14 @@ UNCAST_CTX = [
 
 OPS = {}
 for _o in VALUE_OPS:
-    OPS[_o[0]] = {"id": _o[0], "tpl": _o[1], "mode": _o[2], "ref": _o[3], "clause": _o[4]}
+    OPS[_o[0]] = {"id": _o[0], "tpl": _o[1], "mode": _o[2], "ref": _o[3], "clause": _o[4], "deps": () if _o[0] == "raw" else ("raw",)}  # fmt: skip
 for _o in CAST_CTX:
-    OPS[_o[0]] = {"id": _o[0], "tpl": _o[1], "mode": _o[2], "ref": _o[3], "clause": "context"}
+    OPS[_o[0]] = {"id": _o[0], "tpl": _o[1], "mode": _o[2], "ref": _o[3], "clause": "context", "deps": ("raw",) + _o[4]}
 for _o in UNCAST_CTX:
-    OPS[_o[0]] = {"id": _o[0], "tpl": _o[1], "mode": _o[2], "ref": _o[3], "clause": "context_uncast"}
+    OPS[_o[0]] = {"id": _o[0], "tpl": _o[1], "mode": _o[2], "ref": _o[3], "clause": "context_uncast", "deps": ("raw",)}
 VALUE_IDS = [o[0] for o in VALUE_OPS]
 ALL_IDS = VALUE_IDS + [o[0] for o in CAST_CTX] + [o[0] for o in UNCAST_CTX]
-
-
-def ops_for(source, syntax):
-    """the canonical (colon) rendering on the VARIANT column / the literal takes every op; all other renderings and the
-    typed columns take the value ops"""
-    if syntax == "colon" and source in ("v", "lit"):
-        return ALL_IDS
-    return VALUE_IDS
+LEVELS = [["raw"], VALUE_IDS[1:], [o[0] for o in CAST_CTX] + [o[0] for o in UNCAST_CTX]]
 
 
 def expected(opid, target):
@@ -328,15 +422,51 @@ def expected(opid, target):
 
 
 def clause_of(opid, target):
-    if target is J.MISSING:
+    if target is J.MISSING and opid in VALUE_IDS:
         return "C11.missing"
     return "C11." + OPS[opid]["clause"]
+
+
+# ---- expected values <-> JSON (for replay files) -------------------------------------------------------------------------
+def enc(mode, exp):
+    if exp is None or exp is J.MISSING:
+        return {"null": True}
+    if mode == "json":
+        return {"json": exp}
+    if mode == "text":
+        return {"jsontext": exp.doc} if isinstance(exp, J.JsonText) else {"text": exp}
+    if mode == "num":
+        return {"num": str(exp)}
+    if mode == "bool":
+        return {"bool": exp}
+    raise ValueError(mode)
+
+
+def dec(e):
+    """-> (mode, expected)"""
+    if "null" in e:
+        return "json", None
+    if "json" in e:
+        return "json", e["json"]
+    if "jsontext" in e:
+        return "text", J.JsonText(e["jsontext"])
+    if "text" in e:
+        return "text", e["text"]
+    if "num" in e:
+        import decimal
+
+        return "num", decimal.Decimal(e["num"])
+    if "bool" in e:
+        return "bool", e["bool"]
+    raise ValueError(e)
 
 
 # ======================================================================================================================
 # real side
 # ======================================================================================================================
 _W: dict = {}
+_DUMP = os.environ.get("C11_DUMP")
+BATCH = 40
 
 
 def _instance():
@@ -347,22 +477,23 @@ def _instance():
     return fs, conn
 
 
-def _load_docs(cur, docs):
-    """table j(id, v VARIANT, o OBJECT, a ARRAY): every document through PARSE_JSON('<text>')"""
-    cur.execute("create or replace table j (id int, v variant, o object, a array)")
+def load_sql(docs):
+    """statements creating table j(id, v VARIANT, o OBJECT, a ARRAY) with every document through PARSE_JSON('<text>')"""
+    out = ["create or replace table j (id int, v variant, o object, a array)"]
     for i in range(0, len(docs), 400):
         rows = []
         for n, d in enumerate(docs[i : i + 400], start=i):
             t = _sqlstr(canon(d))
             rows.append(f"({n}, {t}, {t if isinstance(d, dict) else 'NULL'}, {t if isinstance(d, list) else 'NULL'})")
-        cur.execute(
+        out.append(
             "insert into j select column1, parse_json(column2), parse_json(column3), parse_json(column4) from values "
             + ", ".join(rows)
         )
+    return out
 
 
 def _world(tier):
-    """one fakesnow instance per worker process and tier, table j loaded once (read-only afterwards)"""
+    """one fakesnow instance per worker process and tier; table j loaded once (read-only afterwards)"""
     w = _W.get(tier)
     if w is None:
         from mc import observe
@@ -370,9 +501,12 @@ def _world(tier):
         fs, conn = _instance()
         cur = conn.cursor()
         docs = docs_for(tier)
-        _load_docs(cur, docs)
+        for s in load_sql(docs):
+            cur.execute(s)
         raw = observe.raw(fs)
-        raw.execute("create or replace table db1.s1.kk (k tinyint, t integer, id integer)")
+        raw.execute("create or replace table db1.s1.kk (k tinyint, t integer, id integer, x boolean)")
+        for s in split_setup(range(len(SPLIT_STRINGS))):
+            cur.execute(s)
         w = _W[tier] = {"fs": fs, "conn": conn, "cur": cur, "docs": docs, "raw": raw, "kk": None}
     return w
 
@@ -383,7 +517,8 @@ def _exc_name(e):
 
 def run_exprs(cur, acc, exprs, pre, tail):
     """Evaluate `exprs` as one SELECT list (`pre` leading columns, `tail` = FROM/WHERE text). A raising statement is
-    split in halves down to single expressions. Returns per expression ('ok', [(pre..., value), ...]) or ('err', cls)."""
+    split in halves down to single expressions. Returns per expression ('ok', [(pre values, value), ...]) in result
+    order, or ('err', exception class, first line of the message)."""
     out = [None] * len(exprs)
     npre = len(pre)
 
@@ -410,61 +545,77 @@ def run_exprs(cur, acc, exprs, pre, tail):
     return out
 
 
-BATCH = 40
-
-
 def _chunks(xs, n):
     return [xs[i : i + n] for i in range(0, len(xs), n)]
 
 
 # ---- classification --------------------------------------------------------------------------------------------------------
-def outcome_kind(o):
-    return "raises" if o[0] == "err" else o[0]
+# Class keys name the *input shape*; per clause the features that decide the outcome on the pinned tree (everything else --
+# the document around the target, the source column vs literal, the particular spelling among equivalent syntaxes --
+# was found not to matter and is left out so that one defect is one class).
+#   fc     written shape of the access (see formclass)          shift  see shift_feature (bb.I shapes only)
+#   op     operation id                                          kind   kind of the navigated value
+#   elems  'dec+int' when the value comes out of an array literal / ARRAY_CONSTRUCT mixing integers and decimals
+#   cause  constructor shape (see ctor_cause)
+DEFAULT_FEATURES = ("source", "fc", "op", "kind")
+CLASS_FEATURES: dict = {
+    "C11.extract": ("fc", "shift"),
+    "C11.missing": ("fc", "shift", "op"),
+    "C11.text": ("fc", "op", "kind", "elems"),
+    "C11.cast": ("fc", "op", "kind"),
+    "C11.array_size": ("kind",),
+    "C11.context": ("fc", "op", "kind"),
+    "C11.context_uncast": ("op", "kind"),
+    "C11.flatten": ("source", "fc", "op", "kind", "alias", "case"),
+    "C11.construct": ("op", "style", "cause", "kind", "case"),
+    "C11.object_construct": ("op", "style", "cause", "case"),
+    "C11.split": ("op", "kind", "form"),
+}
 
 
 def classify(clause, f):
-    """deterministic class key from the input shape `f` (dict of features); see CLASS_FEATURES"""
+    """deterministic class key naming the input shape: the features listed for the clause, in that order"""
     return ",".join(f"{k}={f[k]}" for k in CLASS_FEATURES.get(clause, DEFAULT_FEATURES) if k in f)
 
 
-DEFAULT_FEATURES = ("source", "syntax", "shape", "op", "kind")
-CLASS_FEATURES: dict = {}
-
-_DUMP = os.environ.get("C11_DUMP")
-
-
 def _record(acc, clause, feats, n, nfail, example):
+    if not n:
+        return
     cls = classify(clause, feats)
     m = acc.classes.setdefault((clause, cls), [0, 0])
     m[0] += n
     m[1] += nfail
     if nfail:
         detail, replay = example
-        for _ in range(1):
-            acc.violation(clause, cls, detail, replay)
+        acc.violation(clause, cls, detail, replay)
         acc.viol[(clause, cls)]["count"] += nfail - 1
     if _DUMP:
-        acc.results_dump.append((clause, dict(feats), n, nfail, example[0] if nfail else None))
+        with open(_DUMP, "a") as f:
+            f.write(json.dumps(core.jsonable((clause, dict(feats), n, nfail, example[0] if nfail else None))) + "\n")
+
+
+def _replay_payload(setup, sql, exp_enc, rows="one"):
+    return {"setup": setup, "sql": sql, "expected": exp_enc, "rows": rows}
 
 
 # ---- column source ---------------------------------------------------------------------------------------------------------
 KCODE = {k: i for i, k in enumerate(J.KINDS)}
 
 
+def _source_doc(d, source):
+    """what column `source` of the row holding document d contains (MISSING = SQL NULL)"""
+    if (source == "o" and not isinstance(d, dict)) or (source == "a" and not isinstance(d, list)):
+        return J.MISSING
+    return d
+
+
 def _targets(docs, source, steps):
-    out = []
-    for d in docs:
-        if source == "o" and not isinstance(d, dict):
-            out.append(J.MISSING)
-        elif source == "a" and not isinstance(d, list):
-            out.append(J.MISSING)
-        else:
-            out.append(J.navigate(d, steps))
-    return out
+    return [J.navigate(_source_doc(d, source), steps) for d in docs]
 
 
 def _set_kk(w, key, targets):
-    """helper table kk(k = kind code, t = id of the distinct target value, id = document row) for the current path"""
+    """helper table kk(k = kind code, t = id of the distinct target value, id = document row, x = excluded) for the
+    current path; written through a raw DuckDB cursor (harness data, not part of the subject)"""
     if w["kk"] == key:
         return w["kkinfo"]
     import pyarrow as pa
@@ -478,28 +629,88 @@ def _set_kk(w, key, targets):
         ks.append(KCODE[J.kind_of(t)])
         ts.append(vals[c])
     raw = w["raw"]
-    tbl = pa.table({"k": pa.array(ks, pa.int8()), "t": pa.array(ts, pa.int32()), "id": pa.array(range(len(ks)), pa.int32())})  # noqa: F841
-    raw.execute("delete from db1.s1.kk")
+    tbl = pa.table(
+        {
+            "k": pa.array(ks, pa.int8()),
+            "t": pa.array(ts, pa.int32()),
+            "id": pa.array(range(len(ks)), pa.int32()),
+            "x": pa.array([False] * len(ks), pa.bool_()),
+        }
+    )
     raw.register("kk_arrow", tbl)
+    raw.execute("delete from db1.s1.kk")
     raw.execute("insert into db1.s1.kk select * from kk_arrow")
     raw.unregister("kk_arrow")
     w["kk"] = key
     w["kkinfo"] = (ks, ts)
+    w["kk_x"] = frozenset()
     return w["kkinfo"]
 
 
-def _cell_ok(mode, exp, got_rows, ident):
-    """got_rows: list of values fetched for row `ident` (exactly one expected)"""
-    if len(got_rows) != 1:
-        return False
-    return J.matches(mode, exp, got_rows[0])
+def _set_excluded(w, excl):
+    """mark rows that must stay out of the next statements (their extraction / inner cast is already wrong)"""
+    excl = frozenset(excl)
+    if w["kk_x"] == excl:
+        return
+    raw = w["raw"]
+    raw.execute("update db1.s1.kk set x = false where x")
+    if excl:
+        raw.execute(f"update db1.s1.kk set x = true where id in ({', '.join(map(str, sorted(excl)))})")
+    w["kk_x"] = excl
+
+
+def _by_id(rows):
+    got = {}
+    for (i,), v in rows:
+        got.setdefault(i, []).append(v)
+    return got
+
+
+def _eval_on_rows(w, acc, exprs, kc, ids, ts):
+    """-> per expression {id: ('ok', [values]) | ('err', cls, msg)} for the rows `ids` (all of kind kc, not excluded)"""
+    cur = w["cur"]
+    tail = f" from j where id in (select id from kk where k = {kc} and not x)"
+    res = []
+    for ch in _chunks(exprs, BATCH):
+        res += run_exprs(cur, acc, ch, ["id"], tail)
+    out = []
+    for e, r in zip(exprs, res):
+        if r[0] == "ok":
+            got = _by_id(r[1])
+            out.append({i: ("ok", got.get(i, [])) for i in ids})
+            continue
+        tvals = sorted({ts[i] for i in ids})
+        if len(tvals) > 1:
+            # does the error depend on the data? (same statement over the empty row set)
+            r0 = run_exprs(cur, acc, [e], ["id"], " from j where id in (select id from kk where k = -1)")[0]
+            if r0[0] == "ok":
+                acc.count("refined_per_value")
+                d = {}
+                for tv in tvals:
+                    rr = run_exprs(cur, acc, [e], ["id"], f" from j where id in (select id from kk where k = {kc} and t = {tv} and not x)")[0]  # fmt: skip
+                    sub = [i for i in ids if ts[i] == tv]
+                    got = _by_id(rr[1]) if rr[0] == "ok" else None
+                    for i in sub:
+                        d[i] = ("ok", got.get(i, [])) if got is not None else rr
+                out.append(d)
+                continue
+        out.append({i: r for i in ids})
+    return out
+
+
+def _judge(mode, exp, r):
+    return r[0] == "ok" and len(r[1]) == 1 and J.matches(mode, exp, r[1][0])
+
+
+def _observed(r):
+    return core.jsonable(r if r[0] == "err" else r[1])
 
 
 def work_col(item, acc, tier):
     """item = ('col', source, path index): every syntax x op of that path on every document row"""
     _, source, pi = item
     w = _world(tier)
-    docs, cur = w["docs"], w["cur"]
+    docs = w["docs"]
     steps = paths_for(tier)[pi]
     targets = _targets(docs, source, steps)
     ks, ts = _set_kk(w, (source, pi), targets)
@@ -507,116 +718,659 @@ def work_col(item, acc, tier):
     for i, k in enumerate(ks):
         by_kind.setdefault(k, []).append(i)
     syntaxes = SYNTAXES if source == "v" else ["colon", "bracket"]
-    for sy, xsql in renderings(source, steps, syntaxes):
+    rends = renderings(source, steps, syntaxes)
+    for sy, xsql, form in rends:
+        full = sy == "colon" and source == "v"
+        rowfeat = [shift_feature(_source_doc(d, source), steps, form) for d in docs]
         for kc in sorted(by_kind):
             ids = by_kind[kc]
             kind = J.KINDS[kc]
-            # ops demanded for this kind (the reference decides per value; demandedness only depends on the kind)
             t0 = targets[ids[0]]
-            opids = [o for o in ops_for(source, sy) if expected(o, t0) is not J.UNDEMANDED]
-            tail = f" from j where id in (select id from kk where k = {kc})"
-            results = {}
-            for ch in _chunks(opids, BATCH):
-                exprs = [OPS[o]["tpl"].format(x=xsql) for o in ch]
-                for o, r in zip(ch, run_exprs(cur, acc, exprs, ["id"], tail)):
-                    results[o] = r
-            # a single raising expression: does the error depend on the data? if so refine per distinct target value
-            per_id = {}
-            for o in opids:
-                r = results[o]
-                if r[0] == "ok":
-                    got = {}
-                    for (i,), v in r[1]:
-                        got.setdefault(i, []).append(v)
-                    per_id[o] = {i: ("ok", got.get(i, [])) for i in ids}
-                    continue
-                e = OPS[o]["tpl"].format(x=xsql)
-                tvals = sorted({ts[i] for i in ids})
-                if len(tvals) > 1:
-                    r0 = run_exprs(cur, acc, [e], ["id"], " from j where id in (select id from kk where k = -1)")[0]
-                else:
-                    r0 = r
-                if r0[0] == "err":
-                    per_id[o] = {i: r for i in ids}
-                    continue
-                acc.count("refined_per_value")
-                d = {}
-                for tv in tvals:
-                    rr = run_exprs(cur, acc, [e], ["id"], f" from j where id in (select id from kk where k = {kc} and t = {tv})")[0]
-                    sub = [i for i in ids if ts[i] == tv]
-                    if rr[0] == "ok":
-                        got = {}
-                        for (i,), v in rr[1]:
-                            got.setdefault(i, []).append(v)
-                        for i in sub:
-                            d[i] = ("ok", got.get(i, []))
-                    else:
-                        for i in sub:
-                            d[i] = rr
-                per_id[o] = d
-            # verdicts; ops over an extraction that itself fails on a row are shadowed by the extraction's verdict
-            bad_raw = set()
-            for o in opids:
-                op = OPS[o]
-                n = nfail = nshadow = 0
-                example = None
-                obs_sig = []
-                for i in ids:
-                    if o != "raw" and i in bad_raw:
-                        nshadow += 1
+            failed: dict = {}  # op -> set of ids where it is wrong
+            for level in LEVELS if full else LEVELS[:2]:
+                opids = [o for o in level if expected(o, t0) is not J.UNDEMANDED]
+                # group by exclusion set (rows where a dependency is wrong)
+                groups: dict = {}
+                for o in opids:
+                    ex = frozenset().union(*[failed.get(d, frozenset()) for d in OPS[o]["deps"]])
+                    groups.setdefault(ex, []).append(o)
+                for ex in sorted(groups, key=sorted):
+                    gops = groups[ex]
+                    live = [i for i in ids if i not in ex]
+                    acc.count("shadowed_cells", len(ex) * len(gops))
+                    if not live:
                         continue
-                    exp = expected(o, targets[i])
-                    r = per_id[o][i]
-                    ok = r[0] == "ok" and _cell_ok(op["mode"], exp, r[1], i)
-                    n += 1
-                    obs_sig.append((i, r[0], r[1] if r[0] == "ok" else r[1]))
-                    if exp is not None and exp is not J.MISSING:
-                        acc.nontrivial((source, sy, steps, o, canon(targets[i])))
-                    if not ok:
-                        nfail += 1
-                        if o == "raw":
-                            bad_raw.add(i)
-                        if example is None:
-                            example = (
-                                {"sql": f"select {op['tpl'].format(x=xsql)} from j", "document": docs[i],
-                                 "expected": repr(exp), "observed": core.jsonable(r if r[0] == "err" else r[1])},
-                                {"mode": "col", "source": source, "doc": docs[i], "steps": list(steps), "syntax": sy, "op": o},
-                            )  # fmt: skip
-                acc.count("evaluations", n)
-                acc.count("shadowed_by_failed_extraction", nshadow)
-                acc.obs((source, steps, sy, kind, o, obs_sig))
-                if n:
-                    tgt = targets[ids[0]]
-                    feats = {"source": source, "syntax": sy, "shape": shape_of(steps), "op": o, "kind": kind}
-                    _record(acc, clause_of(o, tgt), feats, n, nfail, example)
-                    acc.outcome((o, kind, "fail" if nfail else "ok"))
+                    _set_excluded(w, ex)
+                    exprs = [OPS[o]["tpl"].format(x=xsql) for o in gops]
+                    res = _eval_on_rows(w, acc, exprs, kc, live, ts)
+                    for o, e, per_id in zip(gops, exprs, res):
+                        op = OPS[o]
+                        bad = set()
+                        sig = []
+                        stats: dict = {}  # row feature -> [n, nfail, example]
+                        for i in live:
+                            exp = expected(o, targets[i])
+                            r = per_id[i]
+                            sig.append((i, r[0], r[1]))
+                            if exp is not None and exp is not J.MISSING:
+                                acc.nontrivial((source, sy, steps, o, canon(targets[i])))
+                            st = stats.setdefault(rowfeat[i], [0, 0, None])
+                            st[0] += 1
+                            if not _judge(op["mode"], exp, r):
+                                st[1] += 1
+                                bad.add(i)
+                                if st[2] is None:
+                                    sql1 = f"select {e} from j"
+                                    st[2] = (
+                                        {"sql": sql1, "document": docs[i], "expected": repr(exp), "observed": _observed(r)},
+                                        _replay_payload(load_sql([docs[i]]), sql1, enc(op["mode"], exp)),
+                                    )
+                        failed[o] = frozenset(bad)
+                        acc.count("evaluations", len(live))
+                        acc.obs((source, steps, sy, kind, o, sig))
+                        acc.outcome((o, kind, form, "fail" if bad else "ok"))
+                        for rf in sorted(stats, key=str):
+                            n, nfail, example = stats[rf]
+                            feats = {"source": source, "syntax": sy, "form": form, "fc": formclass(form), "shape": shape_of(steps),
+                                     "op": o, "kind": kind}  # fmt: skip
+                            if rf is not None:
+                                feats["shift"] = rf
+                            _record(acc, clause_of(o, t0), feats, n, nfail, example)
     if pi % 97 == 0:
-        acc.sample({"source": source, "path": list(steps), "renderings": renderings(source, steps, syntaxes), "documents": len(docs)})
+        acc.sample({"mode": "col", "source": source, "path": list(steps), "renderings": [r[1] for r in rends], "documents": len(docs)})
+    return None
+
+
+# ---- LATERAL FLATTEN over the table ------------------------------------------------------------------------------------------
+FLAT_COLS = [
+    ("value", "{f}value", "json", lambda e: e),
+    ("value_varchar", "{f}value::varchar", "text", J.to_text),
+    ("value_key", "{f}value:a", "json", lambda e: J.navigate(e, ("a",))),
+    ("value_index", "{f}value[0]", "json", lambda e: J.navigate(e, (0,))),
+    ("value_key_varchar", "{f}value:a::varchar", "text", lambda e: J.to_text(J.navigate(e, ("a",)))),
+]
+FLAT_KINDS = ("missing", "null", "earr", "arr")
+
+
+def _seq_ok(mode, exps, gots):
+    return len(exps) == len(gots) and all(J.matches(mode, e, g) for e, g in zip(exps, gots))
+
+
+def work_flat(item, acc, tier):
+    """item = ('flat', path index): FLATTEN(input => extraction) for the colon and bracket renderings, with and
+    without an alias, restricted to rows whose target is an array / empty array / JSON null / missing"""
+    _, pi = item
+    w = _world(tier)
+    docs, cur = w["docs"], w["cur"]
+    steps = paths_for(tier)[pi]
+    targets = _targets(docs, "v", steps)
+    ks, ts = _set_kk(w, ("v", pi), targets)
+    by_kind: dict = {}
+    for i, k in enumerate(ks):
+        by_kind.setdefault(k, []).append(i)
+    for (sy, xsql, form), (_sy, vsql, _f) in zip(renderings("t.v", steps, ["colon", "bracket"]), renderings("v", steps, ["colon", "bracket"])):
+        for kind in FLAT_KINDS:
+            kc = KCODE[kind]
+            allids = by_kind.get(kc)
+            if not allids:
+                continue
+            # FLATTEN is judged on rows where the bare extraction is right (the others are reported by the col items)
+            _set_excluded(w, ())
+            r = run_exprs(cur, acc, [vsql], ["id"], f" from j where id in (select id from kk where k = {kc})")[0]
+            got = _by_id(r[1]) if r[0] == "ok" else {}
+            ids = [i for i in allids if J.matches("json", targets[i], got[i][0]) ] if r[0] == "ok" and all(len(got.get(i, [])) == 1 for i in allids) else []
+            acc.count("shadowed_cells", (len(allids) - len(ids)) * len(FLAT_COLS))
+            if not ids:
+                continue
+            _set_excluded(w, set(allids) - set(ids))
+            for alias in ("f", "") if sy == "colon" else ("f",):
+                fpre = f"{alias}." if alias else ""
+                exprs = [c[1].format(f=fpre) for c in FLAT_COLS]
+
+                def tail(cond, xsql=xsql, alias=alias):
+                    return f" from (select id, v from j where id in (select id from kk where {cond})) t, lateral flatten(input => {xsql}) {alias}"  # noqa: E501
+
+                res = run_exprs(cur, acc, exprs, ["t.id"], tail(f"k = {kc} and not x"))
+                for (cid, _tpl, mode, ref), e, r in zip(FLAT_COLS, exprs, res):
+                    per_id = None
+                    tvals = sorted({ts[i] for i in ids})
+                    if r[0] == "err" and len(tvals) > 1:
+                        r0 = run_exprs(cur, acc, [e], ["t.id"], tail("k = -1"))[0]
+                        if r0[0] == "ok":
+                            acc.count("refined_per_value")
+                            per_id = {}
+                            for tv in tvals:
+                                rr = run_exprs(cur, acc, [e], ["t.id"], tail(f"k = {kc} and t = {tv} and not x"))[0]
+                                got = _by_id(rr[1]) if rr[0] == "ok" else None
+                                for i in ids:
+                                    if ts[i] == tv:
+                                        per_id[i] = ("ok", got.get(i, [])) if got is not None else rr
+                    if per_id is None:
+                        got = _by_id(r[1]) if r[0] == "ok" else None
+                        per_id = {i: (("ok", got.get(i, [])) if got is not None else r) for i in ids}
+                    nfail = 0
+                    example = None
+                    sig = []
+                    for i in ids:
+                        exps = [ref(x) for x in J.flatten(targets[i])]
+                        rr = per_id[i]
+                        sig.append((i, rr[0], rr[1]))
+                        if exps:
+                            acc.nontrivial(("flat", sy, alias, steps, cid, canon(targets[i])))
+                        if not (rr[0] == "ok" and _seq_ok(mode, exps, rr[1])):
+                            nfail += 1
+                            if example is None:
+                                sql1 = f"select {e} from j t, lateral flatten(input => {xsql}) {alias}"
+                                example = (
+                                    {"sql": sql1, "document": docs[i], "expected": repr(exps), "observed": _observed(rr)},
+                                    _replay_payload(load_sql([docs[i]]), sql1, [enc(mode, x) for x in exps], rows="seq"),
+                                )
+                    acc.count("evaluations", len(ids))
+                    acc.obs(("flat", steps, sy, alias, kind, cid, sig))
+                    acc.outcome(("flat", cid, kind, form, "fail" if nfail else "ok"))
+                    feats = {"source": "v", "syntax": sy, "form": form, "fc": formclass(form), "shape": shape_of(steps),
+                             "op": "flatten." + cid, "kind": kind, "alias": "yes" if alias else "no"}  # fmt: skip
+                    _record(acc, "C11.flatten", feats, len(ids), nfail, example)
+    if pi % 97 == 0:
+        acc.sample({"mode": "flat", "path": list(steps), "sql": f"select f.value from j t, lateral flatten(input => {renderings('t.v', steps, ['colon'])[0][1]}) f"})
+    return None
+
+
+# ---- single-row sources (literal, constructors, misc): cells with dependencies ------------------------------------------------
+def run_cells(cur, acc, cells, setup=()):
+    """cells: dicts with expr, mode, exp, clause, feats, deps (indices of earlier cells), key. FROM-less SELECT lists
+    by dependency level; a cell whose dependency is wrong is shadowed. 'exp' may be the string 'RAISES'."""
+    status = {}
+    level = {}
+    for n, c in enumerate(cells):
+        level[n] = 1 + max([level[d] for d in c["deps"]], default=-1)
+    for lv in sorted(set(level.values())):
+        todo = [n for n in range(len(cells)) if level[n] == lv and all(status.get(d) is True for d in cells[n]["deps"])]
+        acc.count("shadowed_cells", sum(1 for n in range(len(cells)) if level[n] == lv) - len(todo))
+        todo.sort(key=lambda n: (str(cells[n]["feats"].get("op")), n))
+        for ch in _chunks(todo, BATCH):
+            res = run_exprs(cur, acc, [cells[n]["expr"] for n in ch], [], "")
+            for n, r in zip(ch, res):
+                c = cells[n]
+                rr = ("ok", [v for _p, v in r[1]]) if r[0] == "ok" else r
+                if isinstance(c["exp"], str) and c["exp"] == "RAISES":
+                    ok = r[0] == "err"
+                    encexp = {"raises": True}
+                else:
+                    ok = _judge(c["mode"], c["exp"], rr)
+                    encexp = enc(c["mode"], c["exp"])
+                    if c["exp"] is not None and c["exp"] is not J.MISSING:
+                        acc.nontrivial(c["key"])
+                status[n] = ok
+                acc.count("evaluations")
+                acc.obs((c["key"], rr[0], rr[1]))
+                acc.outcome((c["feats"].get("op"), c["feats"].get("kind"), c["feats"].get("form"), "ok" if ok else "fail"))
+                sql = f"select {c['expr']}"
+                example = (
+                    {"sql": sql, "expected": repr(c["exp"]), "observed": _observed(rr)},
+                    _replay_payload(list(setup), sql, encexp),
+                )
+                _record(acc, c["clause"], c["feats"], 1, 0 if ok else 1, example)
+    return status
+
+
+def _path_cells(src, source_name, doc, steps_list, ops_for, extra_feats, chained=True):
+    """cells for the extractions `steps_list` of `doc` written over SQL source text `src` (deps are local indices);
+    chained=False leaves out renderings with two or more brackets directly on the source"""
+    cells = []
+    for steps in steps_list:
+        if not steps:
+            continue
+        target = J.navigate(doc, steps)
+        kind = J.kind_of(target)
+        for sy, xsql, form in renderings(src, steps, ["colon", "bracket"]):
+            if not chained and formclass(form).startswith("bb"):
+                continue
+            idx = {}
+            sh = shift_feature(doc, steps, form)
+            for o in ops_for(sy, target):
+                exp = expected(o, target)
+                if exp is J.UNDEMANDED:
+                    continue
+                if any(d not in idx for d in OPS[o]["deps"]):
+                    continue  # a dependency is not demanded here
+                deps = [idx[d] for d in OPS[o]["deps"]]
+                idx[o] = len(cells)
+                feats = {"source": source_name, "syntax": sy, "form": form, "fc": formclass(form), "shape": shape_of(steps), "op": o, "kind": kind}
+                if sh is not None:
+                    feats["shift"] = sh
+                feats.update(extra_feats)
+                cells.append(
+                    {"expr": OPS[o]["tpl"].format(x=xsql), "mode": OPS[o]["mode"], "exp": exp, "clause": clause_of(o, target),
+                     "feats": feats, "deps": deps, "key": (source_name, canon(doc), steps, sy, o)}
+                )  # fmt: skip
+    return cells
+
+
+def lit_cells(doc):
+    src = f"parse_json({_sqlstr(canon(doc))})"
+    root = {"expr": src, "mode": "json", "exp": doc, "clause": "C11.construct", "deps": [],
+            "feats": {"source": "lit", "op": "parse_json", "kind": J.kind_of(doc), "form": "root"}, "key": ("lit", canon(doc), "root")}  # fmt: skip
+
+    def ops(sy, target):
+        if target is J.MISSING:
+            return VALUE_IDS
+        return ALL_IDS if sy == "colon" else VALUE_IDS
+
+    cells = [root]
+    for c in _path_cells(src, "lit", doc, relevant_paths(doc), ops, {}):
+        c["deps"] = [d + 1 for d in c["deps"]] + [0]
+        cells.append(c)
+    return cells
+
+
+def work_lit(item, acc, tier):
+    """item = ('lit', document index): extractions on PARSE_JSON('<text>') -- existing paths: every op on the colon
+    rendering, value ops on the bracket rendering; negative paths: value ops"""
+    _, di = item
+    doc = lit_docs_for(tier)[di]
+    w = _world(tier)
+    cells = lit_cells(doc)
+    run_cells(w["cur"], acc, cells)
+    if di % 37 == 0:
+        acc.sample({"mode": "lit", "document": doc, "expressions": len(cells), "first": [c["expr"] for c in cells[:3]]})
+    return None
+
+
+# ---- constructors ------------------------------------------------------------------------------------------------------------
+def ctor_sql(doc, style):
+    """SQL constructor expression for `doc`: style 'oc' = OBJECT_CONSTRUCT + [..] literal, 'ock' =
+    OBJECT_CONSTRUCT_KEEP_NULL + ARRAY_CONSTRUCT(..)"""
+    if doc is None:
+        return "NULL"
+    if doc is True:
+        return "TRUE"
+    if doc is False:
+        return "FALSE"
+    if isinstance(doc, (int, float)):
+        return J.num_text(doc)
+    if isinstance(doc, str):
+        return _sqlstr(doc)
+    if isinstance(doc, list):
+        inner = ", ".join(ctor_sql(x, style) for x in doc)
+        return f"[{inner}]" if style == "oc" else f"array_construct({inner})"
+    inner = ", ".join(f"{_sqlstr(k)}, {ctor_sql(v, style)}" for k, v in doc.items())
+    return f"object_construct({inner})" if style == "oc" else f"object_construct_keep_null({inner})"
+
+
+def ctor_expected(doc, style):
+    if isinstance(doc, list):
+        return J.array_construct([ctor_expected(x, style) for x in doc])
+    if isinstance(doc, dict):
+        return J.object_construct([(k, ctor_expected(v, style)) for k, v in doc.items()], keep_null=(style == "ock"))
+    return doc
+
+
+def _sqlkind(x):
+    k = J.kind_of(x)
+    return {"float": "dec", "earr": "arr", "eobj": "obj"}.get(k, k)
+
+
+def _arrays(d):
+    if isinstance(d, list):
+        yield d
+        for x in d:
+            yield from _arrays(x)
+    elif isinstance(d, dict):
+        for x in d.values():
+            yield from _arrays(x)
+
+
+def _objects(d, depth=0):
+    if isinstance(d, dict):
+        yield d, depth
+        for x in d.values():
+            yield from _objects(x, depth + 1)
+    elif isinstance(d, list):
+        for x in d:
+            yield from _objects(x, depth + 1)
+
+
+def ctor_feats(doc, style):
+    """input shape of a constructor call: the top constructor; `elems` = SQL kinds of the elements of the (first) array
+    holding more than one kind, else 'uniform'/'none'; where NULL-valued pairs sit (top call / nested call); whether
+    some OBJECT_CONSTRUCT call ends up with no pair at all (no argument, or -- without KEEP_NULL -- only NULL values)"""
+    top = "array" if isinstance(doc, list) else "object"
+    elems = "none"
+    for a in _arrays(doc):
+        kinds = sorted({_sqlkind(x) for x in a if x is not None})
+        if len(kinds) > 1:
+            elems = "+".join(kinds)
+            break
+        elems = "uniform"
+    nullelem = any(x is None for a in _arrays(doc) for x in a)
+    nulltop = any(v is None for o, dp in _objects(doc) for v in o.values() if dp == 0)
+    nullnested = any(v is None for o, dp in _objects(doc) for v in o.values() if dp > 0)
+    if style == "oc":
+        nopair = any(all(v is None for v in o.values()) for o, _dp in _objects(doc))
+    else:
+        nopair = any(not o for o, _dp in _objects(doc))
+    objin = any(dp > 0 for _o, dp in _objects(doc))
+    return {"top": top, "elems": elems, "nullelem": "yes" if nullelem else "no",
+            "nullpair": "top+nested" if nulltop and nullnested else "top" if nulltop else "nested" if nullnested else "no",
+            "nopair": "yes" if nopair else "no", "objin": "yes" if objin else "no"}  # fmt: skip
+
+
+def ctor_cause(cf, style):
+    """the one constructor-shape feature used in class keys, by priority: an OBJECT_CONSTRUCT left without any pair;
+    an array whose elements have different SQL types (integers with decimals apart: 'dec+int'); NULL-valued pairs in
+    a nested / the top OBJECT_CONSTRUCT; else plain"""
+    if cf["nopair"] == "yes":
+        return "nopair"
+    if cf["elems"] not in ("none", "uniform", "dec+int"):
+        return "hetero"
+    if cf["nullpair"] in ("nested", "top+nested"):
+        return "nullpair.nested"
+    if cf["nullpair"] == "top":
+        return "nullpair.top"
+    if cf["elems"] == "dec+int":
+        return "dec+int"
+    return "plain"
+
+
+def ctor_cells(doc, style):
+    cf = ctor_feats(doc, style)
+    src = ctor_sql(doc, style)
+    exp = ctor_expected(doc, style)
+    clause = "C11.object_construct" if cf["nullpair"] != "no" else "C11.construct"
+    feats = {"source": "ctor", "style": style, "op": "construct", "cause": ctor_cause(cf, style)}
+    cells = [{"expr": src, "mode": "json", "exp": exp, "clause": clause, "deps": [], "feats": feats, "key": ("ctor", style, canon(doc), "root")}]
+    cells.append({"expr": f"array_size({src})", "mode": "num", "exp": J.array_size(exp), "clause": "C11.array_size", "deps": [0],
+                  "feats": {"source": "ctor", "style": style, "op": "array_size", "kind": J.kind_of(exp), "form": "root"},
+                  "key": ("ctor", style, canon(doc), "array_size")})  # fmt: skip
+    pf = {"style": style}
+    if cf["elems"] == "dec+int":
+        pf["elems"] = "dec+int"
+    for c in _path_cells(src, "ctor", exp, relevant_paths(doc, maxlen=2), lambda sy, t: ["raw", "varchar", "array_size"], pf, chained=False):
+        c["deps"] = [d + 2 for d in c["deps"]] + [0]
+        c["key"] = c["key"] + (style,)
+        cells.append(c)
+    return cells
+
+
+def work_ctor(item, acc, tier):
+    """item = ('ctor', document index): the document written with constructors (both styles); the value as a whole,
+    every relevant path (raw, ::varchar, ARRAY_SIZE) and ARRAY_SIZE of the whole"""
+    _, di = item
+    doc = ctor_docs_for(tier)[di]
+    w = _world(tier)
+    for style in ("oc", "ock"):
+        run_cells(w["cur"], acc, ctor_cells(doc, style))
+    if di % 53 == 0:
+        acc.sample({"mode": "ctor", "document": doc, "oc": ctor_sql(doc, "oc"), "ock": ctor_sql(doc, "ock")})
+    return None
+
+
+# ---- explicit lists -----------------------------------------------------------------------------------------------------------
+PARSE_VALID = [
+    "null", "true", "false", "0", "-1.5", '"s"', '"Str"', '"q\\""', '""', "[]", "{}", ' {"a" : [1, 2] } ',
+    '{"a":{"B":[true,null]}}', '[1,"a",null]', '"1"', "1e2", '{"a":"x","B":{"a":[]}}',
+]  # fmt: skip
+PARSE_INVALID = ["nope", '{"a":', "{invalid: ,]", "[1 2]", '{"a" 1}']
+SPLIT_STRINGS = ["a b", "a", "", "a  b", " a", "A,b", "a b c", None]
+SPLIT_SEPS = [" ", ","]
+NULLKEY_CASES = [  # (sql, expected document, constructor shape as in ctor_cause)
+    ("object_construct('a', 1, NULL, 'x')", {"a": 1}, "nullkey"),
+    ("object_construct(NULL, 'x')", {}, "nopair"),
+    ("object_construct_keep_null('a', NULL, NULL, 'x')", {"a": None}, "nullkey"),
+    ("object_construct_keep_null('a', 1, 'B', NULL)", {"a": 1, "B": None}, "nullpair.top"),
+    ("object_construct('a', NULL)", {}, "nopair"),
+    ("object_construct('a', object_construct('B', NULL, 'a', 1))", {"a": {"a": 1}}, "nullpair.nested"),
+    ("object_construct_keep_null('a', object_construct('B', NULL, 'a', 1))", {"a": {"a": 1}}, "nullpair.nested"),
+    ("object_construct('a', object_construct_keep_null('B', NULL))", {"a": {"B": None}}, "nullpair.nested"),
+    ("object_construct()", {}, "nopair"),
+    ("object_construct_keep_null()", {}, "nopair"),
+    ("array_construct()", [], "plain"),
+    ("[]", [], "plain"),
+    ("array_construct(NULL)", [None], "plain"),
+    ("array_construct(1, NULL, 2)", [1, None, 2], "plain"),
+    ("array_construct(object_construct('a', NULL, 'B', 1), object_construct('a', 2))", [{"B": 1}, {"a": 2}], "nullpair.nested"),
+]
+FLAT_LITERALS = [  # (input expression, its elements, label used in class keys)
+    ("parse_json('[3, 1, 2]')", [3, 1, 2], "parse_json.ints"),
+    ("parse_json('[\"b\", \"a\"]')", ["b", "a"], "parse_json.strings"),
+    ("parse_json('[1, \"a\", null, [2], {\"a\": 3}]')", [1, "a", None, [2], {"a": 3}], "parse_json.mixed"),
+    ("parse_json('[]')", [], "parse_json.empty"),
+    ("parse_json('null')", None, "parse_json.null"),
+    ("[3, 1, 2]", [3, 1, 2], "literal.ints"),
+    ("['b', 'a']", ["b", "a"], "literal.strings"),
+    ("array_construct(3, 1, 2)", [3, 1, 2], "array_construct.ints"),
+    ("array_construct('b', 'a')", ["b", "a"], "array_construct.strings"),
+    ("array_construct()", [], "array_construct.empty"),
+    ("split('b a', ' ')", ["b", "a"], "split"),
+    ("object_construct('a', [1, 2]):a", [1, 2], "object_construct.path"),
+]
+
+
+def split_setup(ids):
+    rows = ", ".join(f"({i}, {'NULL' if SPLIT_STRINGS[i] is None else _sqlstr(SPLIT_STRINGS[i])})" for i in ids)
+    return ["create or replace table st (id int, s varchar)", f"insert into st values {rows}"]
+
+
+def _skind(s, sep):
+    if s is None:
+        return "null"
+    return "empty" if s == "" else "one" if len(J.split(s, sep)) == 1 else "many"
+
+
+def work_misc(item, acc, tier):
+    _, what = item
+    w = _world(tier)
+    cur = w["cur"]
+    cells = []
+    if what == "parse":
+        for fn in ("parse_json", "try_parse_json"):
+            for t in PARSE_VALID:
+                cells.append({"expr": f"{fn}({_sqlstr(t)})", "mode": "json", "exp": json.loads(t), "clause": "C11.construct", "deps": [],
+                              "feats": {"source": "lit", "op": fn, "kind": J.kind_of(json.loads(t)), "form": "valid"}, "key": (fn, t)})  # fmt: skip
+            for t in PARSE_INVALID:
+                cells.append({"expr": f"{fn}({_sqlstr(t)})", "mode": "json", "exp": "RAISES" if fn == "parse_json" else None,
+                              "clause": "C11.construct", "deps": [], "feats": {"source": "lit", "op": fn, "kind": "invalid", "form": "invalid"},
+                              "key": (fn, t)})  # fmt: skip
+            cells.append({"expr": f"{fn}(NULL)", "mode": "json", "exp": None, "clause": "C11.construct", "deps": [],
+                          "feats": {"source": "lit", "op": fn, "kind": "sqlnull", "form": "null"}, "key": (fn, None)})  # fmt: skip
+            cells.append({"expr": f"{fn}('{{\"a\":\"Str\"}}'):a::varchar", "mode": "text", "exp": "Str", "clause": "C11.text", "deps": [],
+                          "feats": {"source": "lit", "op": fn + "+varchar", "kind": "str", "form": "p"}, "key": (fn, "path")})  # fmt: skip
+        run_cells(cur, acc, cells)
+    elif what == "nullkey":
+        for sql, exp, cause in NULLKEY_CASES:
+            fn = sql.split("(")[0] if "(" in sql else "array_literal"
+            clause = "C11.object_construct" if "object_construct" in sql else "C11.construct"
+            cells.append({"expr": sql, "mode": "json", "exp": exp, "clause": clause, "deps": [],
+                          "feats": {"source": "ctor", "op": fn, "cause": cause}, "key": ("nullkey", sql)})  # fmt: skip
+        run_cells(cur, acc, cells)
+    elif what == "split":
+        for sep in SPLIT_SEPS:
+            x = f"split(s, {_sqlstr(sep)})"
+            nav = lambda p, st: J.navigate(p, st) if p is not None else None  # noqa: E731
+            exprs = [
+                ("split", x, "json", lambda p: p, "C11.split"),
+                ("split[0]", f"{x}[0]", "json", lambda p: nav(p, (0,)), "C11.extract"),
+                ("split[1]::varchar", f"{x}[1]::varchar", "text", lambda p: J.to_text(nav(p, (1,))), "C11.text"),
+                ("array_size(split)", f"array_size({x})", "num", J.array_size, "C11.split"),
+            ]
+            res = run_exprs(cur, acc, [e[1] for e in exprs], ["id"], " from st")
+            for (name, e, mode, ref, clause), r in zip(exprs, res):
+                got = _by_id(r[1]) if r[0] == "ok" else None
+                for i, s in enumerate(SPLIT_STRINGS):
+                    exp = ref(J.split(s, sep))
+                    rr = ("ok", got.get(i, [])) if got is not None else r
+                    ok = _judge(mode, exp, rr)
+                    acc.count("evaluations")
+                    acc.obs(("split", sep, name, i, rr[0], rr[1]))
+                    if exp is not None and exp is not J.MISSING:
+                        acc.nontrivial(("split", sep, name, s))
+                    sql = f"select {e} from st"
+                    example = ({"sql": sql, "s": s, "expected": repr(exp), "observed": _observed(rr)},
+                               _replay_payload(split_setup([i]), sql, enc(mode, exp)))  # fmt: skip
+                    _record(acc, clause, {"source": "split", "op": name, "kind": _skind(s, sep), "form": "col"}, 1, 0 if ok else 1, example)
+            tail = f" from st, lateral flatten(input => split(s, {_sqlstr(sep)})) f"
+            fcols = [("flatten(split).value", "f.value", "json", lambda e: e), ("flatten(split).value::varchar", "f.value::varchar", "text", J.to_text)]
+            res = run_exprs(cur, acc, [c[1] for c in fcols], ["id"], tail)
+            for (name, col, mode, ref), r in zip(fcols, res):
+                got = _by_id(r[1]) if r[0] == "ok" else None
+                for i, s in enumerate(SPLIT_STRINGS):
+                    exps = [ref(p) for p in (J.split(s, sep) or [])]
+                    rr = ("ok", got.get(i, [])) if got is not None else r
+                    ok = rr[0] == "ok" and _seq_ok(mode, exps, rr[1])
+                    acc.count("evaluations")
+                    acc.obs(("split-flat", sep, name, i, rr[0], rr[1]))
+                    if exps:
+                        acc.nontrivial(("split-flat", sep, name, s))
+                    sql = f"select {col}{tail}"
+                    example = ({"sql": sql, "s": s, "expected": repr(exps), "observed": _observed(rr)},
+                               _replay_payload(split_setup([i]), sql, [enc(mode, x) for x in exps], rows="seq"))  # fmt: skip
+                    _record(acc, "C11.flatten", {"source": "split", "op": name, "kind": _skind(s, sep), "form": "col"}, 1, 0 if ok else 1, example)
+        for s in SPLIT_STRINGS:
+            for sep in SPLIT_SEPS:
+                lit = "NULL" if s is None else _sqlstr(s)
+                parts = J.split(s, sep)
+                sk = _skind(s, sep)
+                x = f"split({lit}, {_sqlstr(sep)})"
+                base = len(cells)
+                cells.append({"expr": x, "mode": "json", "exp": parts, "clause": "C11.split", "deps": [],
+                              "feats": {"source": "split", "op": "split", "kind": sk, "form": "lit"}, "key": ("split-lit", s, sep)})  # fmt: skip
+                cells.append({"expr": f"{x}[0]::varchar", "mode": "text", "exp": J.to_text(J.navigate(parts, (0,))) if parts is not None else None,
+                              "clause": "C11.text", "deps": [base], "feats": {"source": "split", "op": "split[0]::varchar", "kind": sk, "form": "lit"},
+                              "key": ("split-lit0", s, sep)})  # fmt: skip
+                cells.append({"expr": f"array_size({x})", "mode": "num", "exp": J.array_size(parts), "clause": "C11.split", "deps": [base],
+                              "feats": {"source": "split", "op": "array_size(split)", "kind": sk, "form": "lit"}, "key": ("split-lits", s, sep)})  # fmt: skip
+        run_cells(cur, acc, cells)
+    elif what == "flatlit":
+        for n, (src, arr, label) in enumerate(FLAT_LITERALS):
+            for alias in ("f", ""):
+                fpre = f"{alias}." if alias else ""
+                tail = f" from lateral flatten(input => {src}) {alias}"
+                cols = [("value", f"{fpre}value", "json", lambda e: e), ("value_varchar", f"{fpre}value::varchar", "text", J.to_text)]
+                res = run_exprs(cur, acc, [c[1] for c in cols], [], tail)
+                for (cid, e, mode, ref), r in zip(cols, res):
+                    exps = [ref(x) for x in J.flatten(arr)]
+                    rr = ("ok", [v for _p, v in r[1]]) if r[0] == "ok" else r
+                    ok = rr[0] == "ok" and _seq_ok(mode, exps, rr[1])
+                    acc.count("evaluations")
+                    acc.obs(("flatlit", n, alias, cid, rr[0], rr[1]))
+                    if exps:
+                        acc.nontrivial(("flatlit", n, alias, cid))
+                    sql = f"select {e}{tail}"
+                    example = ({"sql": sql, "expected": repr(exps), "observed": _observed(rr)},
+                               _replay_payload([], sql, [enc(mode, x) for x in exps], rows="seq"))  # fmt: skip
+                    feats = {"source": "flatlit", "op": "flatten." + cid, "case": label,
+                             "alias": "yes" if alias else "no"}  # fmt: skip
+                    _record(acc, "C11.flatten", feats, 1, 0 if ok else 1, example)
+    else:
+        raise core.HarnessError(f"unknown misc item {what}")
     return None
 
 
 def work(item, acc, tier):
-    if not hasattr(acc, "results_dump"):
-        acc.results_dump = []
-    if item[0] == "col":
-        work_col(item, acc, tier)
-    else:
-        raise core.HarnessError(f"unknown item {item!r}")
-    if _DUMP:
-        with open(_DUMP, "a") as f:
-            for rec in acc.results_dump:
-                f.write(json.dumps(core.jsonable(rec)) + "\n")
-        acc.results_dump = []
-    return None
+    kind = item[0]
+    if kind == "col":
+        return work_col(item, acc, tier)
+    if kind == "flat":
+        return work_flat(item, acc, tier)
+    if kind == "lit":
+        return work_lit(item, acc, tier)
+    if kind == "ctor":
+        return work_ctor(item, acc, tier)
+    if kind == "misc":
+        return work_misc(item, acc, tier)
+    raise core.HarnessError(f"unknown item {item!r}")
+
+
+def items_for(tier):
+    paths = paths_for(tier)
+    items = [("col", "v", pi) for pi in range(len(paths))]
+    items += [("col", s, pi) for s in ("o", "a") for pi, p in enumerate(paths) if len(p) <= 2]
+    items += [("flat", pi) for pi in range(len(paths))]
+    items += [("lit", di) for di in range(len(lit_docs_for(tier)))]
+    items += [("ctor", di) for di in range(len(ctor_docs_for(tier)))]
+    items += [("misc", m) for m in ("parse", "nullkey", "split", "flatlit")]
+    return items
 
 
 def run(ctx: core.Ctx):
     tier = ctx.tier
-    npaths = len(paths_for(tier))
-    items = [("col", "v", pi) for pi in range(npaths)]
+    docs, paths, ldocs, cdocs = docs_for(tier), paths_for(tier), lit_docs_for(tier), ctor_docs_for(tier)
+    ctx.rule = (
+        "complete product, nothing sampled: col = every document row x every step sequence over the step alphabet up to "
+        "the length bound x every syntax rendering x every demanded op (value ops on all renderings and on the "
+        "OBJECT/ARRAY typed columns; cast and uncast operator contexts on the canonical colon rendering); flat = FLATTEN "
+        "columns over the same paths; lit = every relevant path (existing + one negative step per node) of every literal "
+        "document; ctor = both constructor styles of every constructor document; misc = explicit lists. One evaluation "
+        "= one SQL expression evaluated by fakesnow on one document. Non-trivial = distinct (source, syntax, path, op, "
+        "navigated value) whose expected value is not NULL / empty."
+    )
+    ctx.assumptions = [
+        "Snowflake semantics as documented (GET/GET_PATH, VARIANT conversions, ARRAY_SIZE, OBJECT_CONSTRUCT, FLATTEN, SPLIT) "
+        "encoded in mc/ref/json_nav.py and unit-tested in selftest/test_c11.py; no real Snowflake is consulted",
+        "JSON null and SQL NULL are both None; cells listed under 'not demanded' in the module docstring are not compared",
+        "an expression's value does not depend on the other expressions of the same SELECT list nor on the other rows "
+        "of the table (raising statements are split down to single expressions / single target values)",
+        "rows of a single-table LATERAL FLATTEN come out grouped per input row in element order",
+    ]
+    items = items_for(tier)
     ctx.pmap(work, items)
     ctx.exhaustive = True
+    ctx.extra.update(
+        {
+            "documents_in_table": len(docs),
+            "paths": len(paths),
+            "literal_documents": len(lit_docs_for(tier)) if ldocs else 0,
+            "constructor_documents": len(cdocs),
+            "work_items": len(items),
+            "atoms": [canon(a) for a in (ATOMS if tier == "thorough" else ATOMS_QUICK)],
+            "steps": [str(x) for x in STEPS[tier]],
+            "max_path_length": MAXLEN[tier] if tier == "thorough" else "2 (+ 11 listed paths of length 3)",
+            "syntaxes": SYNTAXES,
+            "ops": ALL_IDS,
+            "bound": "complete finite product over the alphabets listed (documents x paths x syntaxes x ops x sources)",
+        }
+    )
+
+
+def _fetch(cur, sql):
+    try:
+        cur.execute(sql)
+        rows = cur.fetchall()
+    except Exception as e:  # noqa: BLE001
+        return ("err", _exc_name(e), str(e).split("\n")[0][:200])
+    return ("ok", [r[0] for r in rows])
+
+
+def check_payload(r):
+    """re-execute one stored case on a fresh instance: (failed?, observed)"""
+    fs, conn = _instance()
+    cur = conn.cursor()
+    for s in r["setup"]:
+        cur.execute(s)
+    got = _fetch(cur, r["sql"])
+    e = r["expected"]
+    if isinstance(e, dict) and e.get("raises"):
+        return got[0] != "err", got
+    if r["rows"] == "seq":
+        exps = [dec(x) for x in e]
+        ok = got[0] == "ok" and len(got[1]) == len(exps) and all(J.matches(m, x, g) for (m, x), g in zip(exps, got[1]))
+        return not ok, got
+    mode, exp = dec(e)
+    if "null" in e:
+        ok = got[0] == "ok" and len(got[1]) == 1 and got[1][0] is None
+    else:
+        ok = _judge(mode, exp, got)
+    return not ok, got
 
 
 def replay(payload):
-    raise NotImplementedError
+    r = payload["replay"]
+    for s in r["setup"]:
+        print("setup:   ", s[:300])
+    print("sql:     ", r["sql"])
+    print("expected:", json.dumps(r["expected"]))
+    bad, got = check_payload(r)
+    print("observed:", got)
+    print("verdict: ", f"{payload.get('clause')}/{payload.get('class')} violated" if bad else "ok")
+    return bool(bad)
